@@ -172,11 +172,13 @@ def seeds(R, rng, tier):
         "zz_f('/tmp/zz', password='0.0.0.0')\nos.chmod('/tmp/zz', 0o777)\nhashlib.new('md5', password='x')\n")
     fmts = ["json", "yaml", "csv", "xml", "sarif"]
     seeds_ = ["0", "1", "2", "3", "4"] if tier == "quick" else ["0", "1", "2", "3", "4", "5", "6", "7", "8", "9", "10", "11"]
-    for fmt in fmts:
+    runs = [(fmt, []) for fmt in fmts] + [("json", ["-t", "B602,B603,B607,B609,B501,B113,B605,B103,B108,B106,B324"]),
+                                          ("json", ["-s", "B101,B404"]), ("csv", ["-t", "B607,B602,B113,B501"])]
+    for fmt, sel in runs:
         outs = {}
         for s in seeds_:
             env = dict(os.environ, PYTHONPATH=core.REPO, PYTHONHASHSEED=s)
-            p = subprocess.run([core.PY, "-m", "bandit", "-q", "-r", "-f", fmt, "pkg"], cwd=d, env=env, capture_output=True)
+            p = subprocess.run([core.PY, "-m", "bandit", "-q", "-r", "-f", fmt] + sel + ["pkg"], cwd=d, env=env, capture_output=True)
             text = p.stdout.decode("utf-8", "replace")
             text = re.sub(r'"generated_at": "[^"]*"|generated_at: [^\n]*|"endTimeUtc": "[^"]*"|timestamp="[^"]*"', "", text)
             outs[s] = (p.returncode, text)
@@ -189,8 +191,8 @@ def seeds(R, rng, tier):
                 i = next((k for k in range(min(len(a), len(b))) if a[k] != b[k]), min(len(a), len(b)))
                 ctx = a[max(0, i - 120):i + 120]
                 sig = "message-embeds-object-address" if re.search(r"object at 0x", ctx) else None
-                R.violations.append({"what": "%s reports of two runs over the same inputs differ (hash seeds %s and %s)" % (fmt, seeds_[0], s),
-                                     "input": {"format": fmt, "seeds": [seeds_[0], s]}, "observed": {"first_difference_near": ctx}, "signature": sig})
+                R.violations.append({"what": "%s reports of two runs over the same inputs differ (hash seeds %s and %s, options %s)" % (fmt, seeds_[0], s, sel),
+                                     "input": {"format": fmt, "options": sel, "seeds": [seeds_[0], s]}, "observed": {"first_difference_near": ctx}, "signature": sig})
                 break
 
 
